@@ -23,6 +23,12 @@
 //! created from the first; Tree Borrows accepts it.  Reported, not part of this property.)
 //!
 //! CASE [fn, N, L, ty, form]  (see coq/theories/CorrC18.v for the codes)
+//!   fn 11 form 1: the source is the BYTE image [u8; N * size_of T] (alignment 1) of the same values,
+//!        form 2: the target is GenericArray<u8, U{L * size_of T}> and the bytes are observed
+//!        (const_transmute "is transmute": only the sizes have to agree, not the alignments)
+//!   fn 12 form 3 / 4: the repeat forms with a path to a const item of a NON-Copy type as operand
+//!   fn 13 form 1: const_default for a length of 2^19 / 2^20, observed at four places without a
+//!        loop (run `c18big`, `--big`: direct oracles only)
 //! OBS  [1, const values...] compiled and evaluated | [2] const evaluation panicked
 //!      | [0] rejected as UB (any other E0080) | [-1] any other compile error
 //! ORACLE: run-time values differ from the const values; const values differ from the
@@ -65,6 +71,13 @@ fn val(ty: usize, i: usize) -> i64 {
         2 => ((i * 5 + 1) % 256) * 65536 + (i * 9 + 2) % 65536,
         _ => 0,
     }) as i64
+}
+fn esz(ty: usize) -> usize {
+    match ty {
+        0 => 1,
+        3 => 0,
+        _ => 4,
+    }
 }
 fn lit(ty: usize, v: i64) -> String {
     match ty {
@@ -163,10 +176,21 @@ fn expect(c: &Case) -> Exp {
             o.extend(v(0, n))
         }
         11 => {
+            let bytes = |o: &mut Vec<i64>| {
+                for x in v(0, n) {
+                    for b in 0..esz(ty) {
+                        o.push((x >> (8 * b)) & 255)
+                    }
+                }
+            };
             if ty == 3 {
-                o.extend(std::iter::repeat(0).take(l))
+                if c.form != 2 {
+                    o.extend(std::iter::repeat(0).take(l))
+                }
             } else if l != n {
                 return Exp::Panic;
+            } else if c.form == 2 {
+                bytes(&mut o)
             } else {
                 o.extend(v(0, n))
             }
@@ -178,7 +202,13 @@ fn expect(c: &Case) -> Exp {
                 o.extend(std::iter::repeat(val(ty, 0)).take(n))
             }
         }
-        13 => o.extend(std::iter::repeat(0).take(n)),
+        13 => {
+            if c.form == 1 {
+                o.extend([n as i64, 0, 0, 0])
+            } else {
+                o.extend(std::iter::repeat(0).take(n))
+            }
+        }
         14 | 15 => {
             o.push((n == 0) as i64);
             if n == 0 {
@@ -258,6 +288,7 @@ fn gen_module(id: usize, c: &Case, exp: &Exp, with_const: bool) -> String {
     let write_s = "{ let mut j = 0; while j < s.len() { s[j] = W[j]; j += 1; } }";
     let mut body = String::new();
     let mut refitem = String::new();
+    let mut items = String::new();
     let m = if mutf { "_mut" } else { "" };
     let amp = if mutf { "&mut " } else { "&" };
     match c.f {
@@ -426,12 +457,48 @@ fn gen_module(id: usize, c: &Case, exp: &Exp, with_const: bool) -> String {
         let s = g.as_slice(); {read_s}"
             );
         }
+        11 if c.form == 1 => {
+            // from the byte image (alignment 1) of the same values
+            let mut bl = String::new();
+            for i in 0..n {
+                let x = val(ty, i);
+                for b in 0..esz(ty) {
+                    let _ = write!(bl, "{}, ", (x >> (8 * b)) & 255);
+                }
+            }
+            let nb = n * esz(ty);
+            let _ = write!(
+                body,
+                "const BYTES: [u8; {nb}] = [{bl}];
+        let g: GenericArray<T, U{l}> = unsafe {{ generic_array::const_transmute::<[u8; {nb}], GenericArray<T, U{l}>>(BYTES) }};
+        let s = g.as_slice(); {read_s}"
+            );
+        }
+        11 if c.form == 2 => {
+            let lb = l * esz(ty);
+            let _ = write!(
+                body,
+                "let g: GenericArray<u8, U{lb}> = unsafe {{ generic_array::const_transmute::<[T; {n}], GenericArray<u8, U{lb}>>(SRC) }};
+        let s = g.as_slice(); {{ let mut j = 0; while j < s.len() {{ put!(o, k, s[j]); j += 1; }} }}"
+            );
+        }
         11 => {
             let _ = write!(
                 body,
                 "let g: GenericArray<T, U{l}> = unsafe {{ generic_array::const_transmute::<[T; {n}], GenericArray<T, U{l}>>(SRC) }};
         let s = g.as_slice(); {read_s}"
             );
+        }
+        12 if c.form >= 3 => {
+            // the operand is a path to a const item of a non-Copy type: accepted by both repeat forms
+            // exactly as by the native [CK; n]
+            let e = if c.form == 3 { format!("arr![CK; U{}]", n) } else { format!("arr![CK; {}]", n) };
+            let _ = write!(
+                body,
+                "let g: GenericArray<NoCopy, N> = {e}; let s = g.as_slice(); {{ let mut j = 0; while j < s.len() {{ put!(o, k, enc(s[j].0)); j += 1; }} }} core::mem::forget(g);"
+            );
+            items = format!("pub struct NoCopy(pub T); const CK: NoCopy = NoCopy({});", lit(ty, val(ty, 0)));
+            refitem = format!("pub const REF: GenericArray<NoCopy, N> = {e};");
         }
         12 => {
             let e = match c.form {
@@ -441,6 +508,15 @@ fn gen_module(id: usize, c: &Case, exp: &Exp, with_const: bool) -> String {
             };
             let _ = write!(body, "let g: GenericArray<T, N> = {e}; let s = g.as_slice(); {read_s}");
             refitem = format!("pub const REF: GenericArray<T, N> = {e};");
+        }
+        13 if c.form == 1 => {
+            let _ = write!(
+                body,
+                "let g = GenericArray::<T, N>::const_default(); let s = g.as_slice(); put!(o, k, s.len()); put!(o, k, enc(s[0])); put!(o, k, enc(s[{}])); put!(o, k, enc(s[{}]));",
+                n / 2,
+                n - 1
+            );
+            refitem = "pub static REF: GenericArray<T, N> = GenericArray::<T, N>::const_default();".to_string();
         }
         13 => {
             let _ = write!(body, "let g = GenericArray::<T, N>::const_default(); let s = g.as_slice(); {read_s}");
@@ -469,6 +545,9 @@ fn gen_module(id: usize, c: &Case, exp: &Exp, with_const: bool) -> String {
             );
         }
         _ => panic!("bad fn code"),
+    }
+    if !items.is_empty() {
+        let _ = writeln!(s, "    {}", items);
     }
     let _ = writeln!(s, "    pub const fn obs() -> [i64; {}] {{", k);
     let _ = writeln!(s, "        let mut o = [0i64; {}]; let mut k = 0usize;", k);
@@ -898,8 +977,18 @@ fn boundary_ls(n: usize) -> Vec<usize> {
     v
 }
 
-fn enumerate(tier: &str) -> Vec<Case> {
+fn enumerate(tier: &str, big: bool) -> Vec<Case> {
     let thorough = tier == "thorough";
+    if big {
+        // lengths whose construction must stay logarithmic in the evaluator's step budget
+        let mut cs = vec![];
+        for n in if thorough { vec![65536, 262144, 524288, 1048576] } else { vec![524288, 1048576] } {
+            for ty in [0, 3] {
+                cs.push(Case { f: 13, n, l: 0, ty, form: 1 });
+            }
+        }
+        return cs;
+    }
     let ns: Vec<usize> =
         if thorough { vec![0, 1, 2, 3, 4, 5, 6, 7, 8, 15, 16, 17, 31, 32, 33, 63, 64, 65, 100, 127, 128, 255, 256, 1024] } else { vec![0, 1, 2, 3, 7, 8, 16, 31, 32, 33] };
     let full_l_upto = if thorough { 33 } else { 8 };
@@ -946,8 +1035,17 @@ fn enumerate(tier: &str) -> Vec<Case> {
                     cs.push(Case { f: 11, n, l: mm, ty, form: 0 });
                 }
             }
-            for form in 0..3 {
+            for form in 0..5 {
                 cs.push(Case { f: 12, n, l: 0, ty, form });
+            }
+            // const_transmute across alignments: from the byte image, and to bytes (sizes agree or not)
+            if ty != 2 && n <= 256 {
+                for form in [1, 2] {
+                    cs.push(Case { f: 11, n, l: n, ty, form });
+                    if n + 1 <= 256 && (n <= 8 || thorough) {
+                        cs.push(Case { f: 11, n, l: n + 1, ty, form });
+                    }
+                }
             }
         }
     }
@@ -963,7 +1061,7 @@ fn main() {
             assert!(c.len() == 5, "a C18 case has 5 integers");
             vec![Case { f: c[0] as usize, n: c[1] as usize, l: c[2] as usize, ty: c[3] as usize, form: c[4] as usize }]
         }
-        None => enumerate(&a.tier),
+        None => enumerate(&a.tier, a.extra.iter().any(|x| x == "--big")),
     };
     let exps: Vec<Exp> = cases.iter().map(expect).collect();
     let tool = find_tool();
